@@ -230,3 +230,20 @@ def lane_eq(batched: SArr, single: SArr, lane):
     if tuple(rest) != tuple(single.shape):
         return False
     return sand(*[seq(batched.at((lane,) + r), single.at(r)) for r in itertools.product(*[range(d) for d in rest])])
+
+
+def model_float(model, name, default=0.0):
+    """numeric value of the z3 constant `name` in a counter-model (default when the model leaves it unconstrained)"""
+    if model is None:
+        return default
+    for d in model.decls():
+        if d.arity() == 0 and d.name() == name:
+            v = model[d]
+            try:
+                if z3.is_rational_value(v) or z3.is_int_value(v):
+                    return float(v.as_fraction())
+                if z3.is_algebraic_value(v):
+                    return float(v.approx(10).as_fraction())
+            except Exception:
+                return default
+    return default
